@@ -461,7 +461,9 @@ A3Build(p) == Prog(<<Def("a", Obj1),
                     Def("h", Fn(<< >>, Do(<<Log(I(77)), Var("b")>>))),
                     Blk(<<Log(Method(A3o[p[2]], A3m[p[3]], A3l[p[4]]))>>, << <<All, Log(S("c"))>> >>, << >>),
                     Log(MemberN(IF p[2] = 5 THEN Var("b") ELSE A3o[p[2]], "n")),
-                    Log(MemberN(Var("r"), "n"))>>)
+                    Log(MemberN(Var("r"), "n")),
+                    \* member reads through two and three prototype links (`get` lives on a only)
+                    Log(MemberN(Var("c"), "get")), Log(MemberN(Var("r"), "get")), Log(MemberN(Var("c"), "n"))>>)
 
 \* <<"s6", k>>: defaults per call, four scope levels, closures over variables,
 \* composition, mutual recursion, handler selection across frames
